@@ -351,6 +351,61 @@ func c08DatapointCounted(c *core.Ctx, r *core.Report) {
 	insert := c.Obj(pkgMetrics, "MetricsBlock.InsertTimeSeries")
 	addOne := c.Obj(pkgMetrics, "TimeSeries.AddSingleEntry")
 	update := c.Obj("pkg/segment/structs", "MBlockSummary.UpdateTimeRange")
+	// goesOnUncounted: from `from` (a store, or the call of a helper that stored), the function can go on
+	// successfully — return success, or take the next record of a loop — without UpdateTimeRange.  A success
+	// return of an unexported helper hands the obligation to its callers (the update made after the helper call).
+	var goesOnUncounted func(fn *ssa.Function, from *ssa.Call, depth int) ssa.Instruction
+	goesOnUncounted = func(fn *ssa.Function, from *ssa.Call, depth int) ssa.Instruction {
+		errv, _ := errResultOf(from)
+		loops := core.Loops(fn)
+		lp := core.InnermostLoop(loops, from.Block())
+		var leak ssa.Instruction
+		var handOver bool
+		core.WalkForwardEdges(fn, from, func(in ssa.Instruction) bool {
+			if x, ok := in.(ssa.CallInstruction); ok && core.IsCallTo(x, update) {
+				return false
+			}
+			if ret, ok := in.(*ssa.Return); ok && core.ReturnSuccess(ret) != core.No {
+				if errv == nil || core.NilnessAt(errv, ret.Block()) != core.No {
+					if leak == nil {
+						leak = ret
+					}
+					handOver = true
+				}
+			}
+			return true
+		}, func(f, to *ssa.BasicBlock) bool {
+			if errv != nil && core.NilnessAt(errv, to) == core.No {
+				return false // the store failed: nothing to count
+			}
+			if lp != nil && to == lp.Header {
+				if leak == nil {
+					leak = f.Instrs[len(f.Instrs)-1]
+				}
+				return false
+			}
+			return true
+		})
+		if leak == nil {
+			return nil
+		}
+		if _, isRet := leak.(*ssa.Return); isRet && handOver && depth < 2 && fn.Object() != nil && !fn.Object().Exported() {
+			sites := c.StaticCallers()[fn]
+			if len(sites) > 0 {
+				for _, site := range sites {
+					cs, ok := site.(*ssa.Call)
+					if !ok {
+						return leak
+					}
+					if l2 := goesOnUncounted(cs.Parent(), cs, depth+1); l2 != nil {
+						return l2
+					}
+				}
+				return nil
+			}
+		}
+		return leak
+	}
 	n := 0
 	for _, fn := range c.RepoFunctions() {
 		if core.FnPkgPath(fn) != core.ModPath+"/"+pkgMetrics || fn.Blocks == nil {
@@ -365,34 +420,9 @@ func c08DatapointCounted(c *core.Ctx, r *core.Report) {
 		if len(stores) == 0 || fn.Object() == insert || fn.Object() == addOne {
 			continue
 		}
-		loops := core.Loops(fn)
 		for i, st := range stores {
 			n++
-			errv, _ := errResultOf(st)
-			lp := core.InnermostLoop(loops, st.Block())
-			var leak ssa.Instruction
-			core.WalkForwardEdges(fn, st, func(in ssa.Instruction) bool {
-				if x, ok := in.(ssa.CallInstruction); ok && core.IsCallTo(x, update) {
-					return false
-				}
-				if ret, ok := in.(*ssa.Return); ok && core.ReturnSuccess(ret) != core.No && leak == nil {
-					if errv == nil || core.NilnessAt(errv, ret.Block()) != core.No {
-						leak = ret
-					}
-				}
-				return true
-			}, func(from, to *ssa.BasicBlock) bool {
-				if errv != nil && core.NilnessAt(errv, to) == core.No {
-					return false // the store failed: nothing to count
-				}
-				if lp != nil && to == lp.Header {
-					if leak == nil {
-						leak = from.Instrs[len(from.Instrs)-1]
-					}
-					return false
-				}
-				return true
-			})
+			leak := goesOnUncounted(fn, st, 0)
 			construct := fmt.Sprintf("%s:datapoint-store#%d-is-counted-in-the-block's-time-range", shortFn(fn), i+1)
 			if leak != nil {
 				at := leak.Pos()
